@@ -8,7 +8,9 @@ R1  TLC proves, on every digraph with <= 4 nodes and every undirected graph with
     sizes), and that the generator form and predicate form of the topo.Sort contract coincide.
 R2  spec->code: TLC enumerates every graph of the family and prints the defined answers; the harness
     builds each graph in real gonum containers (3 container types x 3 id maps, shuffled insertion order)
-    and compares every determined output with what TLC printed.
+    and compares every determined output with what TLC printed. Generators: every id sequence of length <= 4
+    (mode "gen") and the full small grid n = 0..9 x fan-out 0..10 x listings x centre placements x
+    pre-populated destinations (mode "grid", with the GridOK cross-check of every shape's second formulation).
 R3  code->spec: outputs that are only constrained by a predicate (cycle basis, colourings, spanning
     forests, degeneracy order, topological order) and all outputs on seeded random graphs up to 40 nodes
     are recorded from the real code and judged by TLC against StructuralTrace.tla.
@@ -255,6 +257,10 @@ def run(ctx):
         ("part", gen(ctx, "part", 0, 4, "{0,1,3}" if thorough else "{0,2}")),
         ("prod", gen(ctx, "prod", 0, 3)),
         ("gen", gen(ctx, "gen", 0, 4)),
+        # the full small grid of the deterministic generators: every node count 0..9 x id listings (ascending,
+        # descending, rotated, every repeated id) x centre placements x every fan-out 0..10 x empty and
+        # pre-populated destinations
+        ("grid", gen(ctx, "grid", 0, 9, name="R1+R2 gen generator grid n=0..9 (GridOK: second formulation of every generator)")),
     ]
     if thorough:
         files.append(("und6", gen(ctx, "und", 6, 6)))
